@@ -7,6 +7,9 @@ NOTES = {
  'C01-r4a-m1': 'unreachable: needs a stored state with an instance under two KNOWN servers, which the repaired master cannot produce (two-pass publication, ghosts removed at start-up)',
  'C14-r4d-m7': 'outside the quantifier: needs an injected EIO from os.stat (C14 ranges over allocate/release/collect sequences)',
  'C14-r8b-m4': 'outside the quantifier: needs two VipMgr pools with different networks sharing ONE vips directory (C14 ranges over the operations of owners on one pool; the network service creates one manager per directory)',
+ 'C14-r9d-m4': 'outside the quantifier: like C14-r8b-m4 it needs two address pools with different networks sharing one vips directory',
+ 'C01-r9a-m5': 'unreachable: the stale entry whose removal no longer frees capacity exists only on a server object outside the cell (or for an instance recorded under two known servers at start-up, which the repaired master cannot produce)',
+ 'C05-r9d-m2': 'a C10 violation rather than a C05 one: the new master dies of its own assertion at start-up, so no cycle completes for C05 to be judged after; ./check C10 reports C10.restartOk for it',
  'C07-r6a-m4': 'outside the statement: only the rank of the ONE instance that straddles the end of its reservation changes - C06 fixes the boosted rank for instances that stay within the reservation, and in the changed queue the evicting instance is ahead of the displaced one',
  'C08-r6b-m5': 'outside the statement: C08 says a frozen server keeps its instances EXCEPT those marked for unscheduling; it does not say a marked instance must go (the author of the change notes the same)',
 }
